@@ -582,6 +582,8 @@ class Rat:
         return o * self.recip()
 
     def __pow__(self, n):
+        if hasattr(n, "shape") and getattr(n, "shape", ()) != ():
+            return NotImplemented       # let numpy broadcast: base ** array is element-wise
         if isinstance(n, Rat):
             c = n.const()
             if c is None:
@@ -945,6 +947,11 @@ def _sqrt_poly(p) -> Rat:
             a = _ATOMS[m[0][0]]
             if a.kind == "fn" and a.name == "sqrt":
                 pass
+    if len(prim) == 2 and prim.get(ONE_M) == 1:
+        # sqrt(1 - cos(a)^2) -> |sin(a)|
+        (m2, c2), = [(m, c) for m, c in prim.items() if m]
+        if c2 == -1 and len(m2) == 1 and m2[0][1] == 2 and _ATOMS[m2[0][0]].kind == "fn" and _ATOMS[m2[0][0]].name == "cos":
+            return out * absf(fn_atom("sin", _ATOMS[m2[0][0]].args[0]))
     if len(prim) >= 3:
         root = p_sqrt_exact(prim)
         if root is not None:
